@@ -29,6 +29,15 @@ func getSignificandPlusOne(float64Bits uint64) float64 {
 // exponent should be >= -1022 and <= 1023
 // significandPlusOne should be >= 1 and < 2
 func buildFloat64(exponent int, significandPlusOne float64) float64 {
+	// The callers compute significandPlusOne in floating point: at the edge of an
+	// octave, rounding can make it reach 2 (e.g., 1 + (1 - 2^-53)) or fall just
+	// below 1. Its significand bits alone would then be off by a factor of 2.
+	if significandPlusOne >= 2 {
+		exponent++
+		significandPlusOne /= 2
+	} else if significandPlusOne < 1 {
+		significandPlusOne = 1
+	}
 	if exponent > 1023 {
 		// The value is too large for a float64 (e.g. the upper bound of the highest bin).
 		return math.Inf(1)
